@@ -5,10 +5,12 @@
  * usage: reader_hist <image> <opsfile> <mode> [args]
  *   mode "enum <depth> <first_lo> <first_hi>": all histories of length 1..depth whose first op index is in [lo,hi)
  *   mode "bfs": breadth-first closure over the meta-reader ops only (dedup on the reader's private state)
+ *   mode "reload <depth> <first_lo> <first_hi>": histories with table reloads between queries, compared with fresh readers that saw the reloads only
  *   mode "agree": stream / positional read / per-block access agree on every 'file' op target
  * ops file, one op per line:
  *   inode <ref>            readdir <dirref>        path <rootref> <path>
  *   read <ref> <off> <len> block <ref> <idx>       frag <ref>       stream <ref>
+ *   reload <table 0..2> <variant 0..4>  (load the fragment / xattr / id table again, from the genuine or an altered super block)
  *   xattr <idx>            id <idx>                mseek <absblock> <off> <n>   (meta reader: seek then read n bytes)
  */
 #include "lib/sqfs/src/meta_reader.c"
@@ -252,6 +254,19 @@ static ans_t exec_op(readers_t *r, const op_t *op)
 			if (a.status == 0) a.hash = fnv(a.hash, buf, (size_t)op->c);
 			free(buf);
 		}
+	} else if (!strcmp(op->kind, "reload")) {
+		/* a table is loaded again on the used reader (all three loaders release what they held before): a = 0 fragment table of the data
+		 * reader, 1 xattr reader, 2 id table; b = 0 the genuine super block, 1 table start at the end of the image, 2 entry count x 1000
+		 * (the table ends before its last entry), 3 table start + 1 (garbage location list), 4 feature switched off in the flags */
+		sqfs_super_t s = r->super;
+		sqfs_u64 *start = op->a == 0 ? &s.fragment_table_start : (op->a == 1 ? &s.xattr_id_table_start : &s.id_table_start);
+		if (op->b == 1) *start = s.bytes_used;
+		if (op->b == 2) { if (op->a == 0) s.fragment_entry_count *= 1000; else if (op->a == 2) s.id_count = (sqfs_u16)(s.id_count * 1000 + 7); else *start += 8; }
+		if (op->b == 3) *start += 1;
+		if (op->b == 4) { if (op->a == 0) s.flags |= SQFS_FLAG_NO_FRAGMENTS; else if (op->a == 1) s.flags |= SQFS_FLAG_NO_XATTRS; else s.id_count = 0; }
+		if (op->a == 0) a.status = sqfs_data_reader_load_fragment_table(r->data, &s);
+		else if (op->a == 1) a.status = sqfs_xattr_reader_load(r->xr, &s, r->file, r->cmp);
+		else a.status = sqfs_id_table_read(r->idtbl, r->file, &s, r->cmp);
 	} else {
 		fprintf(stderr, "unknown op %s\n", op->kind);
 		exit(2);
@@ -348,6 +363,45 @@ int main(int argc, char **argv)
 					}
 					drop_readers(&r);
 					histories++;
+					int k = len - 1;
+					while (k >= 1 && ++seq[k] == nops) seq[k--] = 0;
+					if (k < 1) break;
+				}
+			}
+		}
+	} else if (!strcmp(argv[3], "reload")) {
+		/* histories that contain table reloads (configuration steps) between queries: the answer of the last operation must equal its answer on
+		 * fresh readers that went through the reloads of the history only, i.e. it may depend on the configuration steps but not on the queries */
+		int depth = atoi(argv[4]), lo = atoi(argv[5]), hi = atoi(argv[6]);
+		if (depth > MAXDEPTH) depth = MAXDEPTH;
+		if (hi > nops) hi = nops;
+		for (int len = 2; len <= depth; ++len) {
+			int seq[MAXDEPTH];
+			for (int first = lo; first < hi; ++first) {
+				for (int i = 0; i < len; ++i) seq[i] = 0;
+				seq[0] = first;
+				for (;;) {
+					int nre = 0, nq = 0;
+					for (int i = 0; i < len - 1; ++i) { if (!strcmp(ops[seq[i]].kind, "reload")) nre++; else nq++; }
+					if (nre > 0 && nq > 0) {
+						ans_t got = {0, 0}, want = {0, 0};
+						if (make_readers(&r)) return 2;
+						for (int i = 0; i < len; ++i) { got = exec_op(&r, &ops[seq[i]]); executed++; }
+						drop_readers(&r);
+						if (make_readers(&r)) return 2;
+						for (int i = 0; i < len - 1; ++i) if (!strcmp(ops[seq[i]].kind, "reload")) { exec_op(&r, &ops[seq[i]]); executed++; }
+						want = exec_op(&r, &ops[seq[len - 1]]); executed++;
+						drop_readers(&r);
+						if (got.status == 0) ok_ans++; else err_ans++;
+						histories++;
+						if (got.status != want.status || (got.status == 0 && got.hash != want.hash)) {
+							if (mismatches++ == 0) {
+								memcpy(first_bad, seq, sizeof(int) * (size_t)len);
+								first_len = len;
+								bad_exp = want; bad_got = got;
+							}
+						}
+					}
 					int k = len - 1;
 					while (k >= 1 && ++seq[k] == nops) seq[k--] = 0;
 					if (k < 1) break;
